@@ -4,7 +4,9 @@ import (
 	"bytes"
 	"crypto/sha256"
 	"encoding/hex"
+	"errors"
 	"fmt"
+	"io"
 	"math/rand"
 	"os"
 	"os/exec"
@@ -377,9 +379,31 @@ func c13Workload(run *vlib.Run, ts []*vlib.Target, nPolicies, rounds int) {
 							run.Violation("stale-after-in-place-edit", fmt.Sprintf("policy %d edited in place to equal policy %d compiles to something else than a fresh equal policy", i, i+1), map[string]any{"check": "C13", "policy": specs[i+1]})
 							return
 						}
+						// what an earlier call returned belongs to the caller: the later call must not have written into it
+						for k := range c.Ins {
+							if rc, ok := c.Ins[k].(bpf.RetConstant); !ok || rc.Val != 0xdeadbeef {
+								run.Violation("earlier-result-overwritten-by-later-call", fmt.Sprintf("the program returned by the first Assemble of policy %d (overwritten by its caller) was written to by a later Assemble of the same value: instruction %d is now %v", i, k, c.Ins[k]), map[string]any{"check": "C13", "policy": s})
+								return
+							}
+						}
+						// a copy of the value taken after it was compiled, compiled in turn: the result above stays what it is
+						cp := *p
+						cp.DefaultAction = specs[i].Policy().DefaultAction
+						c3 := vlib.Compile(&cp, t)
+						_ = c3
+						if d := progDigest(c2.Ins, c2.Err); d != golden[i+1] {
+							run.Violation("earlier-result-overwritten-by-later-call", fmt.Sprintf("the program returned by Assemble for policy %d changed when a copy of the value was compiled afterwards", i+1), map[string]any{"check": "C13", "policy": specs[i+1]})
+							return
+						}
+						run.Count("earlier_results_checked_after_later_calls", 1)
 						continue
 					}
 					if (k+g)%4 == 0 {
+						if (k+g)%8 == 0 {
+							// a listing written to a writer that fails or writes short after some bytes: the next listing is what it is
+							p.Dump(&failingWriter{left: (k*37 + g*11 + round) % 200, short: (k+round)%2 == 0})
+							run.Count("dumps_into_failing_writers", 1)
+						}
 						var buf bytes.Buffer
 						if err := p.Dump(&buf); (err == nil) != (c.Err == nil) || (err == nil && buf.String() != goldenDump[i]) {
 							run.Violation("nondeterministic-dump", fmt.Sprintf("Dump of policy %d differs from the golden run", i), map[string]any{"check": "C13", "policy": s})
@@ -604,4 +628,23 @@ func c13() {
 	run.Finish(run.Counter("compilations")+run.Counter("compilations_of_sharing_copies")+run.Counter("compilations_under_race_detector")+run.Counter("text_conversions"),
 		int64(len(c13Policies(run.Seed, run.N(120, 600), ts))),
 		"fixed PRNG list of name-only and mixed policies compiled by 16 goroutines (distinct values; struct copies sharing Syscalls/Names/Conditions arrays with sentinel-filled spare capacity) while 4 goroutines run GetInfo/Unpack/String; every program and Dump compared with a sequential golden run; deep comparison of the policy before/after; the same workload under the race detector; N fresh processes must print identical digests and text forms; distinct = policies in the list")
+}
+
+// failingWriter accepts left bytes and then fails (or reports a short write without error text of its own).
+type failingWriter struct {
+	left  int
+	short bool
+}
+
+func (w *failingWriter) Write(b []byte) (int, error) {
+	if len(b) <= w.left {
+		w.left -= len(b)
+		return len(b), nil
+	}
+	n := w.left
+	w.left = 0
+	if w.short {
+		return n, io.ErrShortWrite
+	}
+	return n, errors.New("injected write failure")
 }
